@@ -172,10 +172,8 @@ class Norm:
             return "%s(%s, %s)" % (op, ra, rb)
         if t == "call":
             n = strip_generics(e[1])
-            if _TRY.search(n) and len(e[2]) == 1:
-                return self.r(e[2][0], d)
-            if _UNWRAP.search(n) and e[2]:
-                return self.r(e[2][0], d) + "@+"
+            if (_TRY.search(n) and len(e[2]) == 1) or (_UNWRAP.search(n) and e[2]):
+                return self._proj(e, d)
             if _CLONE.search(n) and len(e[2]) == 1:
                 return ("clone(%s)" % self.r(e[2][0], d)) if self.keep_clone else self.r(e[2][0], d)
             return "%s(%s)" % (n, ", ".join(self.r(a, d) for a in e[2]))
@@ -186,30 +184,7 @@ class Norm:
         if t == "cast":
             return "(%s as %s)" % (self.r(e[1], d), e[2])
         if t == "field" or t == "downcast":
-            # collect the projection chain; unify success projections
-            chain = []
-            x = e
-            while x[0] in ("field", "downcast"):
-                chain.append(x)
-                x = x[1]
-            chain.reverse()
-            out = self.r(x, d)
-            i = 0
-            toks = []
-            while i < len(chain):
-                p = chain[i]
-                if p[0] == "downcast" and i + 1 < len(chain) and chain[i + 1][0] == "field" and chain[i + 1][2] == "0":
-                    toks.append("+" if p[2] in _OKV else p[2])
-                    i += 2
-                    continue
-                if toks:
-                    out += "@" + "@".join(sorted(toks))
-                    toks = []
-                out += ("@" + p[2]) if p[0] == "downcast" else ("." + p[2])
-                i += 1
-            if toks:
-                out += "@" + "@".join(sorted(toks))
-            return out
+            return self._proj(e, d)
         if t == "index":
             return "%s[%s]" % (self.r(e[1], d), self.r(e[2], d))
         if t == "cindex":
@@ -224,6 +199,45 @@ class Norm:
         if t == "closure":
             return "closure[%s]" % ", ".join(self.r(x, d) for x in e[2])
         return mir.render(e)
+
+    def _proj(self, e, d):
+        """Projection chain through fields / variant payloads / `?` / unwrap / expect, success projections unified to `+`
+        and runs of variant-payload projections sorted."""
+        chain = []
+        x = e
+        while True:
+            if x[0] in ("field", "downcast"):
+                chain.append(x)
+                x = x[1]
+            elif x[0] == "call" and len(x[2]) >= 1 and _TRY.search(strip_generics(x[1])) and len(x[2]) == 1:
+                x = x[2][0]
+            elif x[0] == "call" and x[2] and _UNWRAP.search(strip_generics(x[1])):
+                chain.append(("ok",))
+                x = x[2][0]
+            else:
+                break
+        chain.reverse()
+        out = self.r(x, d)
+        i = 0
+        toks = []
+        while i < len(chain):
+            p = chain[i]
+            if p[0] == "ok":
+                toks.append("+")
+                i += 1
+                continue
+            if p[0] == "downcast" and i + 1 < len(chain) and chain[i + 1][0] == "field" and chain[i + 1][2] == "0":
+                toks.append("+" if p[2] in _OKV else p[2])
+                i += 2
+                continue
+            if toks:
+                out += "@" + "@".join(sorted(toks))
+                toks = []
+            out += ("@" + p[2]) if p[0] == "downcast" else ("." + p[2])
+            i += 1
+        if toks:
+            out += "@" + "@".join(sorted(toks))
+        return out
 
     def site(self, s):
         return self.r(self.body.site_expr(s))
@@ -485,3 +499,22 @@ def elementwise(prog, f, result_expr=None):
         elem = ("downcast_payload", nx)
         return Elementwise("loop", f, some[0], [nx.bb], keeps, elem, src, nx)
     return None
+
+
+def capture_exprs(prog, child):
+    """Parent-side expressions of the variables captured by closure/coroutine body `child` (by capture index),
+    together with the parent body: (parent, [expr...]); (None, []) if the construction site is not found."""
+    if not child.parent:
+        return None, []
+    parent = None
+    for b in prog.bodies(child.crate):
+        if b.path == child.parent:
+            parent = b
+            break
+    if parent is None:
+        return None, []
+    for bi in parent.live:
+        for st in parent.blocks[bi]["stmts"]:
+            if st["k"] == "assign" and st["r"]["k"] == "agg" and st["r"].get("ak") in ("closure", "coroutine", "coroutine_closure") and st["r"].get("def") == child.path:
+                return parent, [parent.operand_expr(o) for o in st["r"]["ops"]]
+    return parent, []
